@@ -19,6 +19,26 @@ def build_names(specs):
     return {k: out[k] for k in specs if k in out}
 
 
+class ZeroDict(dict):
+    """Counter-like: d[absent] answers 0 without creating the key."""
+
+    def __missing__(self, key):
+        return 0
+
+
+def wrap_names(names, kind):
+    """The host's names mapping is a Dict[str, Any]: any dict will do, also the ones with a __missing__ (asking them
+    for an absent key creates it / answers with a default - `in` does not)."""
+    import collections
+    if kind == 'defaultdict':
+        return collections.defaultdict(lambda: 'DEFAULT-FROM-MISSING', names)
+    if kind == 'counter':
+        return ZeroDict(names)
+    if kind == 'ordered':
+        return collections.OrderedDict(names)
+    return names
+
+
 class World:
     def __init__(self, cfg, with_model=True, parser=None):
         """cfg: {"names": {name: spec}, "host_fns": [names], "cache": spec|None}"""
@@ -26,8 +46,9 @@ class World:
         self.cache = make_cache(cfg.get('cache'))
         self.parser = parser or boot.fresh_parser(self.cache)
         self.host = Host()
+        self.host.thread_hop = bool(cfg.get('thread_hop'))
         fns = list(cfg.get('host_fns', ()))
-        self.names = build_names(cfg.get('names', {}))
+        self.names = wrap_names(build_names(cfg.get('names', {})), cfg.get('names_kind'))
         if fns:
             self.names.update(self.host.fns(fns))
         self.model = None
